@@ -9,6 +9,7 @@ import time
 from vlib import common, e2e, sessions
 
 sys.path.insert(0, "/verif/harness/py")
+import agent as ag  # noqa: E402
 import ber  # noqa: E402
 
 TICK = 0.05          # seconds per model tick
@@ -65,7 +66,16 @@ def build(peer, req, kind, value):
     if kind == "r":
         return peer.response(req, vbs)
     if kind == "s":
-        return peer.response(req, vbs, request_id=(req["request_id"] + 1) % 2 ** 31)
+        # non-matching datagrams come in flavours: a reply to another request, a request PDU that was reflected or
+        # misdirected (names bound to NULL), a reply for another community
+        other = (req["request_id"] + 1) % 2 ** 31
+        flavour = (req["request_id"] + value) % 4
+        if flavour == 1:
+            return peer.response(req, [ber.varbind(tuple(req["varbinds"][0][0]), ber.NULL)], request_id=other,
+                                 pdu_tag=(0, 1, 5)[req["request_id"] % 3] if peer.kind != "v1" else 0)
+        if flavour == 2 and peer.kind != "v3":
+            return e2e.Peer(peer.kind, community=peer.community + "x").response(req, vbs)
+        return peer.response(req, vbs, request_id=other)
     if kind == "n":
         # the matching reply, but it says noSuchInstance (the call ends with an exception, not a value)
         return peer.response(req, [ber.varbind(tuple(req["varbinds"][0][0]), ber.NOSUCHINSTANCE)])
@@ -205,6 +215,96 @@ def run_tiny(mode, peer, timeout_s, stray):
     return box["r"], box["el"]
 
 
+def run_entry(mode, peer, op, stray_first):
+    """another entry point than get(): a walk step, get_many, or the discovery a session without engine id performs;
+    the agent stays silent for the measured request (optionally after one non-matching datagram). Returns
+    (outcome tuple, elapsed seconds) of the measured call, or (None, None) when it is still blocked after 3 s."""
+    import threading
+    box = {}
+    T = T_TICKS * TICK
+    discover = op == "discover"
+
+    def plan(dg):
+        outer = ber.decode_message(dg)
+        if discover:
+            if outer.get("version") == 3 and outer.get("engine_id") == b"":
+                # the first probe: a datagram of a foreign engine (another msgID) and then the genuine Report
+                st = peer.state
+                foreign = ag.V3AgentState(bytes(reversed(st.engine_id)) + b"\x01", boots=9, time=9, user="")
+                genuine = st.report(outer["request_id"] if "request_id" in outer else 0, outer["msg_id"], user=outer.get("user", b""))
+                return ([foreign.report(1, (outer["msg_id"] + 7) % 2 ** 31, user=b"")] if stray_first else []) + [genuine]
+            req = peer.decode(dg)
+            if req["pdu_type"] == 0 and not req["varbinds"]:
+                return [peer.state.report(req["request_id"], req["msg_id"], auth=bool(peer.state.auth_alg))]
+            return [peer.response(req, [ber.varbind(tuple(req["varbinds"][0][0]), ber.INT(4242))])]
+        req = peer.decode(dg)
+        if req["pdu_type"] == 0 and not req["varbinds"]:
+            return [peer.state.report(req["request_id"], req["msg_id"], auth=bool(peer.state.auth_alg))]
+        return [build(peer, req, "s", 1)] if stray_first else []
+
+    def kwargs():
+        kw = session_kwargs(peer)
+        if discover:
+            kw["engine_id"] = None
+        return kw
+
+    def do_sync(s):
+        if op == "getnext":
+            return next(iter(s.getnext("1.3.6.1.2.1")))
+        if op == "getbulk":
+            return next(iter(s.getbulk("1.3.6.1.2.1")))
+        if op == "fetch":
+            return next(iter(s.fetch("1.3.6.1.2.1")))
+        if op == "get_many":
+            return s.get_many(["1.3.6.1.2.1.1.3.0", "1.3.6.1.2.1.1.5.0"])
+        s.refresh()
+        return s.get("1.3.6.1.2.1.1.3.0")
+
+    async def do_async(s):
+        if op in ("getnext", "getbulk", "fetch"):
+            it = s.getnext("1.3.6.1.2.1") if op == "getnext" else (s.getbulk("1.3.6.1.2.1") if op == "getbulk" else s.fetch("1.3.6.1.2.1"))
+            async for item in it:
+                return item
+            raise StopAsyncIteration
+        if op == "get_many":
+            return await s.get_many(["1.3.6.1.2.1.1.3.0", "1.3.6.1.2.1.1.5.0"])
+        await s.refresh()
+        return await s.get("1.3.6.1.2.1.1.3.0")
+
+    def sync_body():
+        from gufo.snmp.sync_client import SnmpSession
+        agent = e2e.ThreadAgent(lambda dg: [(0, x) for x in plan(dg)])
+        try:
+            s = SnmpSession("127.0.0.1", port=agent.port, timeout=T, **kwargs())
+            if not discover and peer.kind == "v3":
+                s.refresh()
+            t0 = time.monotonic()
+            box["r"] = e2e.ncall(lambda: do_sync(s))
+            box["el"] = time.monotonic() - t0
+        finally:
+            agent.stop = True
+
+    def async_body():
+        async def main(port):
+            from gufo.snmp.async_client import SnmpSession
+            s = SnmpSession("127.0.0.1", port=port, timeout=T, **kwargs())
+            if not discover and peer.kind == "v3":
+                await s.refresh()
+            t0 = time.monotonic()
+            try:
+                r = ("ok", await do_async(s))
+            except BaseException as ex:  # noqa: BLE001
+                r = ("exc", type(ex).__name__, isinstance(ex, Exception))
+            box["r"], box["el"] = r, time.monotonic() - t0
+        e2e.run_async(main, plan)
+    t = threading.Thread(target=sync_body if mode == "sync" else async_body, daemon=True)
+    t.start()
+    t.join(3.0 + T)
+    if t.is_alive() or "r" not in box:
+        return None, None
+    return box["r"], box["el"]
+
+
 def outcome(r):
     if r[0] == "exc" and r[1] == "Hang":
         return "Hang"
@@ -328,6 +428,50 @@ def run(chk, model_ok=True):
                     chk.violation("oracle", f"{mode} {peer.label}: get() with timeout={T_s} s ended as {outcome(r)} after {el:.3f}s",
                                   {"kind": "oracle", "lines": [line], "timeout_s": T_s, "mode": mode, "stray": stray})
                     bad += 1
+    # the other entry points: a walk step, get_many, the discovery of a session that was given no engine id. Silent agent
+    # (optionally one non-matching datagram first): TimeoutError at the deadline — not an early error, not a silent
+    # end of the walk; discovery: a datagram of a foreign engine ahead of the genuine Report must not cost the reply
+    n_entry = 0
+    T_s = T_TICKS * TICK
+    for op in ("getnext", "getbulk", "fetch", "get_many", "discover"):
+        for mode in ("sync", "async"):
+            for stray in (False, True):
+                pool = [p for p in peers if (op not in ("getbulk",) or p.kind != "v1") and (op != "discover" or p.kind == "v3")]
+                if not pool:
+                    continue
+                peer = pool[n_entry % len(pool)]
+                n_entry += 1
+                if e2e.HUNG and mode == "async":
+                    continue
+                line = f"# entry point {op}, {mode}, {peer.label}, non-matching datagram first={stray}"
+
+                def problem():
+                    r, el = run_entry(mode, peer, op, stray)
+                    if r is None:
+                        return (f"{mode} {peer.label}: {op} against a silent agent is still blocked {3 + T_s:.1f} s after the call "
+                                f"(timeout {T_s} s)")
+                    got = outcome(r)
+                    if op == "discover":
+                        if got != "delivered":
+                            return (f"{mode} {peer.label}: discovery + get with the genuine Report sent at once"
+                                    f"{' after a datagram of a foreign engine' if stray else ''} ended as {got} after {el:.3f}s "
+                                    "(a matching reply before the deadline must be delivered)")
+                        return None
+                    if got != "timeout" or el > T_s + 0.3 or el < T_s - 0.05:
+                        return (f"{mode} {peer.label}: {op} against a silent agent"
+                                f"{' (one non-matching datagram first)' if stray else ''} ended as {got} after {el:.3f}s; "
+                                f"TimeoutError at {T_s} s is what the property determines")
+                    return None
+                # (timing on a shared machine: a verdict is reported only when it repeats three times in a row)
+                why = problem()
+                for _ in range(2):
+                    if not why:
+                        break
+                    why = problem()
+                if why:
+                    chk.violation("oracle", why, {"kind": "oracle", "lines": [line], "timeout_s": T_s, "mode": mode})
+                    bad += 1
+    chk.coverage["entry_point_cases"] = n_entry
     hist = {}
     distinct = set()
     lines = []
